@@ -17,7 +17,7 @@ RULE = (
     "had returned before, none for failed/unfinished delegates, each carrying the delegate's result; a future resolves with the first "
     "yield; a raising poll call fails exactly the unresolved futures it was shown; a new eligibility or notify() is followed by a poll "
     "within 0.01 s (or right after the running call); the cancel function is consulted only in the polling stage, with the delegate's "
-    "result, and a False/raise vetoes. Non-trivial = a registration, yield, cancel or notify overlapping a poll call or falling on the "
+    "result, and a False/raise vetoes. Two of the catalogue programs are swept once more with every bytecode instruction of poll.py as a scheduling point. Non-trivial = a registration, yield, cancel or notify overlapping a poll call or falling on the "
     "instant of one. Distinct = digest of the case."
 )
 ASSUMPTIONS = ["futures in transition (completion or resolving call overlapping the start of the poll call) may go either way",
@@ -110,6 +110,9 @@ def catalog():
                   sub("f0"), sub("f1"), sub("f2"), ["sleep", 0.01], ["run", "ex", 0]],
         "threads": [[["sleep", 0.5], ["cancel", "f0"]], [["sleep", 0.75], ["run", "ex", 1]], [["sleep", 1.0], ["run", "ex", 2]], [["sleep", 1.25], ["notify", "ex"]]],
         "settle": 8.0, "final": [["state", "f0"], ["state", "f1"], ["state", "f2"]]}}
+    # the same small programs with EVERY bytecode instruction of poll.py as a scheduling point
+    for src in ("P1/register-vs-wait", "P6/cancel-vs-registration"):
+        out["instr/" + src.replace("/", "-")] = dict(out[src], instr_points=["poll.py"])
     return out
 
 
@@ -438,11 +441,13 @@ def run_shard(spec, ctx):
                 extra["clock"] = ent["clock"]
             if ent.get("jump_points"):
                 extra["jump_points"] = True
+            if ent.get("instr_points"):
+                extra["instr_points"] = ent["instr_points"]
             da = ent.get("double_always")
             if da:
                 progs.sweep(ctx, ent["prog"], name, evaluate, account, double=True, picks=da["picks"], window=da["window"], extra=extra)
             else:
-                progs.sweep(ctx, ent["prog"], name, evaluate, account, double=spec.get("double"), extra=extra)
+                progs.sweep(ctx, ent["prog"], name, evaluate, account, double=spec.get("double") and not ent.get("instr_points"), extra=extra)
     elif spec["mode"] == "machine":
         import machines
         machines.run_machine(machines.make_poll_machine, ctx, spec["seed"], spec["n"], spec["steps"])
